@@ -1966,7 +1966,7 @@ func (tb *Table) deleteMstsInTmpPart(tmpPartPath, mergeSetInnerPartDir string, m
 		for _, item := range deletionScanResult.TmpItems {
 			if !bsm.ib.Add(item) {
 				bsm.flushIB(bsw, &ph, &ItemsMerged)
-				bsm.ib.Add(ps.Item)
+				bsm.ib.Add(item)
 			}
 		}
 		bsm.flushIB(bsw, &ph, &ItemsMerged)
@@ -2215,9 +2215,9 @@ func (tb *Table) genTempPart(pw *partWrapper, delTsids *uint64set.Set, tmpPartPa
 		}
 
 		if !bsm.ib.Add(ps.Item) {
-			// The bsm.ib is full. Flush it to bsw and continue.
+			// The bsm.ib is full. Flush it to bsw and add the item to the next block.
 			bsm.flushIB(bsw, &ph, &itemsMerged)
-			continue
+			bsm.ib.Add(ps.Item)
 		}
 	}
 
